@@ -41,7 +41,9 @@ fn claim(viol: &Violation, op: &Op, pre: &World, _info: &StepInfo) -> Option<Vio
             && (matches!(viol.class, "category-order" | "duplicate-key") || (viol.class == "accessor-disagrees" && (viol.msg.contains("get_attribute") || viol.msg.contains("get_namespace") || viol.msg.contains("attribute_nodes"))));
         return if about_maps { Some(v("model-mismatch-map", format!("after {}: {}", op.name(), viol.msg))) } else { None };
     }
-    if viol.property != "C05" && !(viol.property == "C04" && matches!(viol.class, "category-order" | "duplicate-key")) {
+    // a map operation on an element that unwinds is not map behaviour either
+    let unwinds = viol.property == "C06" && viol.class == "panic";
+    if viol.property != "C05" && !unwinds && !(viol.property == "C04" && matches!(viol.class, "category-order" | "duplicate-key")) {
         return None;
     }
     let m = &pre.model;
